@@ -75,6 +75,9 @@ type Case struct {
 	OAuth2    bool      `json:"forceOAuth2,omitempty"`
 	OverRetry bool      `json:"overRetry,omitempty"`
 	Acts      []Act     `json:"acts"`
+	// ShareHeader: the caller builds its single requests on one header map that it
+	// keeps using for the next request (to whatever host)
+	ShareHeader bool `json:"shareHeader,omitempty"`
 }
 
 // the third registry shares its host name with the first and differs in the port
@@ -84,6 +87,7 @@ var scopePool = []string{"repository:app:pull", "repository:app:push", "reposito
 
 func genCase(t *rapid.T) Case {
 	c := Case{Cache: rapid.SampledFrom([]string{"shared", "shared", "single", "none"}).Draw(t, "cache")}
+	c.ShareHeader = rapid.IntRange(0, 3).Draw(t, "shareHeader") == 1
 	n := rapid.IntRange(2, 4).Draw(t, "nRegs")
 	c.OAuth2 = rapid.IntRange(0, 3).Draw(t, "forceOAuth2") == 0
 	c.OverRetry = rapid.Bool().Draw(t, "overRetry")
@@ -700,6 +704,7 @@ func runInner(c Case) (res vt.Result, fail *vt.Fail) {
 	hostsTouched := map[string]bool{}
 	cacheHit, rechallenge, mixedOverlap := false, false, false
 	leader := map[int]bool{} // call ids that run with a doomed context
+	sharedHeader := http.Header{"User-Agent": []string{"verif-caller"}}
 	doOne := func(a Act, id int) (*http.Response, error) {
 		r := c.Regs[a.Host]
 		ctx := context.WithValue(context.Background(), callIDKey{}, id)
@@ -725,6 +730,9 @@ func runInner(c Case) (res vt.Result, fail *vt.Fail) {
 		req, err := http.NewRequestWithContext(ctx, a.Method, "https://"+r.Host+a.Path, body)
 		if err != nil {
 			return nil, err
+		}
+		if c.ShareHeader && a.Kind == "do" {
+			req.Header = sharedHeader // (single calls only: a map is not for concurrent use)
 		}
 		return cl.Do(req)
 	}
